@@ -103,7 +103,7 @@ Proof.
   intros A F. split; [apply latin_1_to_utf16_result; assumption|].
   apply (latin1_result E16 m sub b _ A). apply utf16_to_latin_1_result.
   - apply (enc_units E16 b (bytes_scalars b A)). discriminate.
-  - rewrite (enc16_bytes b A). exact F.
+  - cbn [enc]. rewrite (enc16_bytes b A). exact F.
 Qed.
 
 Theorem latin1_utf32_roundtrip m sub b : all_lt 256 b = true -> fits b ->
@@ -112,7 +112,7 @@ Proof.
   intros A F. split; [apply latin_1_to_utf32_result; assumption|].
   apply (latin1_result E32 m sub b _ A). apply utf32_to_latin_1_result.
   - apply (enc_units E32 b (bytes_scalars b A)). discriminate.
-  - rewrite enc32_id. exact F.
+  - cbn [enc]. rewrite enc32_id. exact F.
 Qed.
 
 Theorem latin1_wchar_roundtrip m sub b : all_lt 256 b = true -> fits b ->
@@ -157,6 +157,9 @@ Proof.
   - apply utf32_to_utf16_std; assumption.
 Qed.
 
+Lemma last_default {A} (l : list A) : forall x d d', last (x :: l) d = last (x :: l) d'.
+Proof. induction l as [|y l IH]; intros x d d'; [reflexivity|]. cbn [last] in *. apply IH. Qed.
+
 Theorem chain l : scalars l = true -> (forall e, utf_enc e -> fits (enc e l)) ->
   forall path e0, utf_enc e0 -> Forall (fun p => utf_enc (fst p)) path ->
   run_chain path e0 (enc e0 l) = Ok (enc (last (map fst path) e0) l).
@@ -164,7 +167,8 @@ Proof.
   intros S F path. induction path as [|[e m] p IH]; intros e0 U0 P; [reflexivity|].
   inversion P as [|? ? Ue Pp]; subst. cbn [fst] in Ue. cbn [run_chain].
   rewrite (convert_std e0 e m l S U0 Ue (F e0 U0)). cbn [bind]. rewrite (IH e Ue Pp).
-  cbn [map fst]. destruct p as [|[e' m'] p']; reflexivity.
+  cbn [map fst]. destruct p as [|[e' m'] p']; [reflexivity|].
+  cbn [map fst last]. f_equal. f_equal. apply last_default.
 Qed.
 
 (* ---- ST::string entry points ---- *)
@@ -196,3 +200,80 @@ Proof. intros S U1 U2 F. rewrite !(convert_std e1 e2 _ l S U1 U2 F). reflexivity
 (* hypotheses are satisfiable *)
 Example std_nonvacuous : scalars [0x41; 0xE9; 0x20AC; 0x1F600; 0x10FFFF] = true /\ fits (enc8 [0x41; 0xE9; 0x20AC; 0x1F600; 0x10FFFF]).
 Proof. split; [reflexivity|]. unfold fits. vm_compute. reflexivity. Qed.
+
+(* ---- grouped statements (one obligation per group in Properties/C01.v) ---- *)
+Theorem utf_pairs_std m l : scalars l = true ->
+  (fits (enc8 l) -> utf8_to_utf16 m (Some (enc8 l)) = Ok (enc16 l)) /\
+  (fits (enc8 l) -> utf8_to_utf32 m (Some (enc8 l)) = Ok (enc32 l)) /\
+  (fits (enc16 l) -> utf16_to_utf8 m (Some (enc16 l)) = Ok (enc8 l)) /\
+  (fits (enc16 l) -> utf16_to_utf32 m (Some (enc16 l)) = Ok (enc32 l)) /\
+  (fits (enc32 l) -> utf32_to_utf8 m (Some (enc32 l)) = Ok (enc8 l)) /\
+  (fits (enc32 l) -> utf32_to_utf16 m (Some (enc32 l)) = Ok (enc16 l)).
+Proof.
+  intros S. repeat split; intros F.
+  - apply utf8_to_utf16_std; assumption.
+  - apply utf8_to_utf32_std; assumption.
+  - apply utf16_to_utf8_std; assumption.
+  - apply utf16_to_utf32_std; assumption.
+  - apply utf32_to_utf8_std; assumption.
+  - apply utf32_to_utf16_std; assumption.
+Qed.
+
+Theorem latin1_pairs_std m sub b : all_lt 256 b = true -> fits (enc8 b) ->
+  (latin_1_to_utf8 (Some b) = Ok (enc8 b) /\ utf8_to_latin_1 m sub (Some (enc8 b)) = Ok b) /\
+  (latin_1_to_utf16 (Some b) = Ok (enc16 b) /\ utf16_to_latin_1 m sub (Some (enc16 b)) = Ok b) /\
+  (latin_1_to_utf32 (Some b) = Ok (enc32 b) /\ utf32_to_latin_1 m sub (Some (enc32 b)) = Ok b) /\
+  (latin_1_to_wchar (Some b) = Ok (enc wchar_encoding b) /\ wchar_to_latin_1 m sub (Some (enc wchar_encoding b)) = Ok b).
+Proof.
+  intros A F.
+  assert (Fb : fits b).
+  { unfold fits in *. assert (length b <= length (enc8 b))%nat; [|lia].
+    clear. induction b as [|c b IH]; [cbn; lia|]. cbn [enc8 flat_map]. rewrite app_length. cbn [length].
+    fold (enc8 b). pose proof (Utf.ProofsEnc.utf8_enc_nonempty c). destruct (utf8_enc c); [congruence|cbn; lia]. }
+  split; [apply latin1_utf8_roundtrip; assumption|].
+  split; [apply latin1_utf16_roundtrip; assumption|].
+  split; [apply latin1_utf32_roundtrip; assumption|apply latin1_wchar_roundtrip; assumption].
+Qed.
+
+Theorem wchar_pairs_std m l : scalars l = true ->
+  (fits (enc8 l) -> utf8_to_wchar m (Some (enc8 l)) = Ok (enc wchar_encoding l)) /\
+  (fits (enc16 l) -> utf16_to_wchar m (Some (enc16 l)) = Ok (enc wchar_encoding l)) /\
+  utf32_to_wchar m (Some (enc32 l)) = Ok (enc wchar_encoding l) /\
+  (fits (enc wchar_encoding l) -> wchar_to_utf8 m (Some (enc wchar_encoding l)) = Ok (enc8 l)) /\
+  (fits (enc wchar_encoding l) -> wchar_to_utf16 m (Some (enc wchar_encoding l)) = Ok (enc16 l)) /\
+  wchar_to_utf32 m (Some (enc wchar_encoding l)) = Ok (enc32 l).
+Proof.
+  intros S. repeat split; try intros F.
+  - apply utf8_to_wchar_std; assumption.
+  - apply utf16_to_wchar_std; assumption.
+  - apply wchar_to_utf8_std; assumption.
+  - apply wchar_to_utf16_std; assumption.
+Qed.
+
+Theorem string_routes_std m l : scalars l = true ->
+  (fits (enc8 l) -> string_from_utf8 m (Some (enc8 l)) = Ok (enc8 l)) /\
+  (fits (enc16 l) -> string_from_utf16 m (Some (enc16 l)) = Ok (enc8 l)) /\
+  (fits (enc32 l) -> string_from_utf32 m (Some (enc32 l)) = Ok (enc8 l)) /\
+  (fits (enc wchar_encoding l) -> string_from_wchar m (Some (enc wchar_encoding l)) = Ok (enc8 l)) /\
+  string_literal_char (Some (enc8 l)) = Ok (enc8 l) /\
+  string_to_utf8 (enc8 l) = Ok (enc8 l) /\
+  (fits (enc8 l) -> string_to_utf16 (enc8 l) = Ok (enc16 l)) /\
+  (fits (enc8 l) -> string_to_utf32 (enc8 l) = Ok (enc32 l)) /\
+  (fits (enc8 l) -> string_to_wchar (enc8 l) = Ok (enc wchar_encoding l)).
+Proof.
+  intros S. repeat split; try intros F.
+  - apply string_from_utf8_std; assumption.
+  - apply string_from_utf16_std; assumption.
+  - apply string_from_utf32_std; assumption.
+  - apply string_from_wchar_std; assumption.
+  - apply string_to_utf16_std; assumption.
+  - apply string_to_utf32_std; assumption.
+  - apply string_to_wchar_std; assumption.
+Qed.
+
+Theorem string_latin1_std sub b : all_lt 256 b = true -> fits (enc8 b) ->
+  string_from_latin_1 (Some b) = Ok (enc8 b) /\ string_to_latin_1 sub (enc8 b) = Ok b.
+Proof.
+  intros A F. split; [|apply string_to_latin_1_std; assumption].
+  exact (proj1 (proj1 (latin1_pairs_std AssumeValid sub b A F))).
+Qed.
